@@ -1083,7 +1083,11 @@ func (p *Parser) parseClassElement() ClassElement {
 		if p.tt == OpenBraceToken {
 			prevYield, prevAwait, prevRetrn := p.yield, p.await, p.retrn
 			p.yield, p.await, p.retrn = false, true, false
-			elem := ClassElement{StaticBlock: p.parseBlockStmt("class static block")}
+			blockStmt := &BlockStmt{}
+			parent := p.enterScope(&blockStmt.Scope, true) // var declarations do not leave a static block
+			blockStmt.List = p.parseStmtList("class static block")
+			p.exitScope(parent)
+			elem := ClassElement{StaticBlock: blockStmt}
 			p.yield, p.await, p.retrn = prevYield, prevAwait, prevRetrn
 			return elem
 		}
